@@ -31,6 +31,15 @@ CHECKS = {
          "coverage (+ climatology); dims, error-exit/NaN outcome of empty selections and all request results are compared with Data(...).",
     technique="TLA+ spec (Dataset.tla SelTime/SelLead/SelLoc) model-checked with TLC; generated option sets replayed into verif.data.Data",
     ref="6/C03"),
+ "C04": dict(
+    text="Scoring.tla composes Dataset.tla and Metrics.tla: a score is the metric's definition on the contributing cases of the slice, "
+         "so the expected value cannot depend on a placeholder, and a slice without contributing cases has no defined score; TLC emits "
+         "datasets with missing single cells, whole missing time/location slices and whole missing fields together with the expected score "
+         "of 49 metrics x 4 axes x every slice and input; each dataset is materialised once per missing-value encoding of its format "
+         "(text: -999, -999.0, nan, non-numeric; NetCDF: NaN, _FillValue, masked, -999, >1e30; Decode/DecodeNc in TextFormat/NcFormat.tla) "
+         "and every score recomputed by Metric.compute (a number where the spec says undefined, or any exception, is a violation).",
+    technique="TLA+ specs (Scoring.tla = Dataset.tla + Metrics.tla) evaluated by TLC; expected score matrices replayed through files in every missing-value encoding into verif.data + verif.metric",
+    ref="6/C04"),
  "C11": dict(
     text="Calendar.tla is an integer proleptic-Gregorian calendar; TLC checks bucket-containment, monotonicity and inverse-conversion "
          "lemmas on every day 1900-2100 (thorough) and emits each day's facts, replayed into verif.util conversions and all time-like "
